@@ -766,11 +766,16 @@ impl Indexable for ast::FieldLet {
         let field = ctx.symbol_map.record_field(field_id);
         let field_typ = field.typ.clone();
 
-        let new_field = RecordField::new(name.clone(), field_typ.clone(), record_id, reference_loc);
-        let new_field_id = ctx.symbol_map.add_record_field(new_field);
+        // an inherited field gets an entry of its own in this record; a field this record
+        // declares itself (`bits<8> Inst; let Inst{3-0} = 1;`) stays the one it is
+        if field.parent != record_id {
+            let new_field =
+                RecordField::new(name.clone(), field_typ.clone(), record_id, reference_loc);
+            let new_field_id = ctx.symbol_map.add_record_field(new_field);
 
-        let record = ctx.symbol_map.record_mut(record_id);
-        record.add_record_field(name.clone(), new_field_id);
+            let record = ctx.symbol_map.record_mut(record_id);
+            record.add_record_field(name.clone(), new_field_id);
+        }
         ctx.symbol_map.add_reference(field_id, reference_loc);
 
         // `let f{3-0} = v;` sets the selected bits only
